@@ -235,9 +235,8 @@ def entries : List Entry := [
   -- version -----------------------------------------------------------------------------------------
   { kind := "M", op := "c14.ver", run := fun
       | [h] => do
-        pure (match (← fromHex h) with
-          | v0 :: v1 :: v2 :: v3 :: _ => s!"ok {(le32 v0 v1 v2 v3).toNat} {toHex (putLe32 (le32 v0 v1 v2 v3))}"
-          | _ => "panic")
+        let v := (versionFromBytes (← fromHex h)).1
+        pure s!"ok {v.toNat} {toHex (putLe32 v)}"
       | _ => none },
   { kind := "S", op := "c14.ver", run := fun
       | [h] => do
